@@ -57,6 +57,7 @@ pub fn run(cx: &mut Ctx) {
     named_escape(cx);
     value_conversions(cx);
     lex_string_order(cx);
+    bytes_truncation(cx);
     conversion_flags(cx, &refd);
     crate::rules::c16::writer_reader(cx, "C06.W1");
     {
@@ -977,6 +978,46 @@ fn conversion_flags(cx: &mut Ctx, refd: &serde_json::Value) {
         }
     } else {
         cx.anchor_missing(rule, "parse_formatted_value");
+    }
+}
+
+/// C06.B2: a decoded character becomes a byte by truncation.
+fn bytes_truncation(cx: &mut Ctx) {
+    let rule = "C06.B2";
+    cx.rule(rule, "bytes literals keep the low 8 bits of every decoded character (a three-digit octal escape above \\377 yields U+0100..U+01FF from parse_octet; CPython stores it modulo 256): in StringParser::parse_bytes the characters reach Constant::Bytes only through `as u8` casts; a checked or saturating conversion (u8::try_from / try_into / min / clamp on an unmasked value) would change the value of b'\\400'..b'\\777'");
+    cx.floor(rule, 1);
+    let Ok(s) = sm::load(&cx.repo, "parser/src/string.rs") else { return cx.anchor_missing(rule, "parser/src/string.rs") };
+    let Some(m) = s.method("StringParser", "parse_bytes") else { return cx.anchor_missing(rule, "StringParser::parse_bytes") };
+    let mut casts = 0;
+    let mut bad: Vec<(String, String)> = vec![];
+    sm::for_each_expr_in_block(&m.block, |e| match e {
+        syn::Expr::Cast(c) if sm::tsc(&c.ty) == "u8" => casts += 1,
+        syn::Expr::Call(c) => {
+            let f = sm::tsc(&c.func);
+            if (f.ends_with("u8::try_from") || f == "u8::from" || f.ends_with("TryFrom::try_from")) && !c.args.iter().any(|a| masked(&sm::tsc(a))) {
+                bad.push((sm::tsc(e), s.loc(e)));
+            }
+        }
+        syn::Expr::MethodCall(mc) => {
+            let name = mc.method.to_string();
+            if ["try_into", "min", "clamp"].contains(&name.as_str()) && !masked(&sm::tsc(&mc.receiver)) && !sm::tsc(&mc.receiver).contains("len()") {
+                bad.push((sm::tsc(e), s.loc(e)));
+            }
+        }
+        _ => {}
+    });
+    fn masked(t: &str) -> bool {
+        t.contains("&0xff") || t.contains("&255") || t.contains("%256") || t.contains("&0xFF") || t.contains("%0x100")
+    }
+    for (what, loc) in &bad {
+        cx.fail(rule, &format!("{}/checked-conversion", rule), loc, &format!("parse_bytes converts a decoded character with `{}`: characters U+0100..U+01FF (octal escapes \\400..\\777) no longer keep their low 8 bits", what));
+    }
+    if casts >= 1 {
+        if bad.is_empty() {
+            cx.ok(rule, &format!("parse_bytes: {} truncating `as u8` cast(s), no checked or saturating conversion", casts));
+        }
+    } else {
+        cx.fail(rule, &format!("{}/no-cast", rule), &s.loc(m), "parse_bytes has no truncating `as u8` conversion of the decoded characters");
     }
 }
 
